@@ -4,6 +4,7 @@ import AldorVerif.Lemmas.BigIntKnuth
 import AldorVerif.Lemmas.BigIntPow
 import AldorVerif.Lemmas.BigIntMod
 import AldorVerif.Lemmas.BigIntText
+import AldorVerif.Lemmas.BigIntScan
 
 /-! # C11: property theorems about the model of `bigint.c` / `foam_i.c`
 
@@ -146,24 +147,15 @@ theorem sipower_val (a : BInt) (ha : WF a) (n : BitVec 64) (hn : 0 ≤ n.toInt) 
 theorem bipower_val (a b : BInt) (ha : WF a) (hb : WF b) (hb0 : 0 ≤ val b) :
     val (fiBIntBIPower a b) = val a ^ (val b).toNat ∧ WF (fiBIntBIPower a b) := fiBIntBIPower_spec ha hb hb0
 
-/-- full-strength statement for `fiBIntPowerMod`: `a^b` reduced modulo `c` (sign of `a^b`). -/
-def powermod_statement : Prop :=
-  ∀ (a b c : BInt), WF a → WF b → WF c → val c ≠ 0 → 0 ≤ val b →
-    val (fiBIntPowerMod a b c) = Int.tmod (val a ^ (val b).toNat) (val c) ∧ WF (fiBIntPowerMod a b c)
-
-/-- **proved part**: everything except exponent 0 with modulus ±1. -/
-theorem powermod_val_partial (a b c : BInt) (ha : WF a) (hb : WF b) (hc : WF c) (hc0 : val c ≠ 0)
-    (hb0 : 0 ≤ val b) (hex : ¬ (val b = 0 ∧ (val c).natAbs = 1)) :
+/-- `fiBIntPowerMod`: `a^b` reduced modulo `c` (remainder of the truncated division, so the sign is
+that of `a^b`), for every non-negative exponent and non-zero modulus — exponent 0 included
+(`bintMod(bint1, c)`, i.e. 0 for `c = ±1`). -/
+theorem powermod_val (a b c : BInt) (ha : WF a) (hb : WF b) (hc : WF c) (hc0 : val c ≠ 0) (hb0 : 0 ≤ val b) :
     val (fiBIntPowerMod a b c) = Int.tmod (val a ^ (val b).toNat) (val c) ∧ WF (fiBIntPowerMod a b c) :=
-  fiBIntPowerMod_spec ha hb hc hc0 hb0 hex
+  fiBIntPowerMod_spec ha hb hc hc0 hb0
 
-/-- the full statement is false of the code: `5^0 mod 1` is answered `1`
-(known finding `bigint|powmod-exponent0-modulus1`). -/
-theorem powermod_statement_refuted : ¬ powermod_statement := by
-  intro h
-  have := (h (.imm 5) (.imm 0) (.imm 1) (by decide) (by decide) (by decide) (by decide) (by decide)).1
-  revert this
-  decide
+example : fiBIntPowerMod (.imm 5) (.imm 0) (.imm 1) = .imm 0 ∧ fiBIntPowerMod (.imm 5) (.imm 0) (.imm (-1)) = .imm 0 ∧
+    fiBIntPowerMod (.imm (-3)) (.imm 3) (.imm 5) = .imm (-2) := by decide
 
 /-- `bintSmall`: the value, whenever it fits a C `long` (stored numbers between `2^62` and `2^63` included). -/
 theorem small_val (a : BInt) (ha : WF a) (h1 : -9223372036854775808 ≤ val a) (h2 : val a < 9223372036854775808) :
@@ -198,6 +190,25 @@ theorem toString_repr (a : BInt) (ha : WF a) : String.ofList (bintToString a) = 
     rw [if_pos this]
     show String.ofList (['-'] ++ Nat.toDigits 10 (m + 1)) = "-" ++ toString (m + 1)
     rw [Nat.toString_eq_ofList_toDigits, String.ofList_append]
+
+/-- `bintFrString (bintToString a) = a`: the decimal text reads back to the very same normal form
+(through the lexer of `bintRadixScanFrString`, the `strtol` path and the chunk path). -/
+theorem frString_toString (a : BInt) (ha : WF a) : bintFrString (bintToString a) = a :=
+  frString_toString_spec ha
+
+/-- radix conversion from text (`bintRadixScanFrString` after its lexer): for every radix 2..36 and every
+string of digits `0-9A-Z` valid in that radix the exact value results, in normal form. -/
+theorem radixScan_val (rdx : Nat) (h2 : 2 ≤ rdx) (h36 : rdx ≤ 36) (num : List Char)
+    (hv : ∀ c ∈ num, ValidDigit rdx c) (isNeg : Bool) :
+    val (radixScanCore isNeg (rdx : Int) num).1 = (if isNeg then -(radVal rdx num : Int) else (radVal rdx num : Int)) ∧
+    WF (radixScanCore isNeg (rdx : Int) num).1 := radixScanCore_spec h2 h36 hv isNeg
+
+/-- decimal conversion from text (`bintScanFrString`/`fiScanBInt` after its lexer). -/
+theorem scan_val (digs : List Char) (hv : ∀ c ∈ digs, ValidDigit 10 c) (isNeg : Bool) :
+    val (scanCore isNeg digs).1 = (if isNeg then -(radVal 10 digs : Int) else (radVal 10 digs : Int)) ∧
+    WF (scanCore isNeg digs).1 := scanCore_spec hv isNeg
+
+example : bintFrString "16rFFFFFFFFFFFFFFFFFF".toList = .big false [4294967295, 4294967295, 255] := by decide
 
 /-! non-vacuity: well-formed operands of both representations exist and exercise the
 representation switch -/
